@@ -19,7 +19,10 @@ STEP_LIMIT = 600_000
 TYPE_OF = {"flat": ["FLAT", "VMFS"], "hosted": ["SPARSE"], "stream": ["SPARSE"], "cowd": ["VMFSSPARSE"], "sesparse": ["SESPARSE"]}
 NAMES = ["disk-s%03d.vmdk", "my disk-s%03d.vmdk", "dïsk-flat %d.vmdk", "disk.%d.delta.vmdk", "a b c %d.vmdk", "disk-%d-📀.vmdk", "x%d",
          "clone #%d of base.vmdk", "Windows 10 x64\u2028(copy)-f%03d.vmdk", "nel\u0085name-%d.vmdk", "ff\x0cvt\x0b-%d.vmdk", "a=b;c-%d.vmdk",
-         "RW 12 FLAT %d.vmdk", "tab\there-%d.vmdk", 'my "old" disk %d.vmdk', "it's-%d.vmdk", 'a"b-%d.vmdk']
+         "RW 12 FLAT %d.vmdk", "tab\there-%d.vmdk", 'my "old" disk %d.vmdk', "it's-%d.vmdk", 'a"b-%d.vmdk',
+         # names that a Unicode normaliser would rewrite: decomposed accents (as HFS+/APFS hosts store them), the Angstrom sign, a
+         # CJK compatibility ideograph - the directory holds exactly these code points
+         "cafe\u0301-%d.vmdk", "\u212bngstro\u0308m-%d.vmdk", "\uf900-%d.vmdk"]
 
 
 def gen_case(seed: int, prop: str, tier: str) -> dict:
